@@ -154,6 +154,8 @@ void flatcc_emitter_reset(flatcc_emitter_t *E)
     flatcc_emitter_page_t *p = E->front;
 
     if (!E->front) {
+        /* A failed first page allocation has already been counted in `used`. */
+        E->used = 0;
         return;
     }
     E->back = E->front;
